@@ -1,6 +1,8 @@
 SPECIFICATION Spec
 CONSTANTS
   NBands = 2
+  Styles = {"old", "new"}
+  FullNew = FALSE
 INVARIANT HistReproducible
 ACTION_CONSTRAINT Emit
 CHECK_DEADLOCK FALSE
